@@ -96,6 +96,15 @@ func c11Pred(c *rt.Ctx, st *gen.Store, r *rt.Rand) *gen.Node {
 		return gen.Or(gen.And(gen.Bin("=", K(), lit()), g.Atom(0)), gen.Bin("=", K(), lit()))
 	case 6:
 		return gen.Bin(">=", K(), lit())
+	case 8:
+		// IN list with an item that depends on the pair (DELETE filters through the vector path)
+		items := []*gen.Node{lit(), lit()}
+		dep := []*gen.Node{gen.Value(), gen.Call("lower", gen.Value()), gen.Call("upper", K()), gen.Bin("+", K(), gen.Str(""))}[r.Intn(4)]
+		items[r.Intn(2)] = dep
+		if r.Bool() {
+			return gen.In(K(), items...)
+		}
+		return gen.In(gen.Value(), gen.Str("tombstone"), K(), gen.Str(g.ValLits[r.Intn(len(g.ValLits))]))
 	case 7:
 		// unions and intersections of half-open and closed key ranges, literal on either side
 		rng := func() *gen.Node {
@@ -140,6 +149,11 @@ func (k c11) Run(c *rt.Ctx) {
 	r := c.R
 	st := gen.NewStore(r, c11Families[r.Intn(len(c11Families))])
 	pred := c11Pred(c, st, r)
+	if r.Chance(1, 25) {
+		ps, p := highByteCase(r)
+		st, pred = &gen.Store{Family: gen.FBinary, Pairs: ps}, p
+		c.Rec.Inc("high_byte_literals")
+	}
 	lim := ""
 	if r.Chance(1, 3) {
 		s := []int{0, 0, 1, 2, 3, 5, 31, 32, 33, 64}[r.Intn(10)]
